@@ -14,7 +14,9 @@ def scenario(r, quick):
         out = "A" + (b"o%d\n" % i).hex() if r.chance(2, 3) else "-"
         b = r.weighted([("o", 5), ("r", 2), ("h", 1), ("H", 1)]) if faulty else "o"
         if b == "o":
-            hosts.append(("h%d" % i, "o", out, "-", 0))
+            # sometimes the command also talks on stderr, several pieces that may arrive after stdout has closed
+            err = "/".join("A" + (b"e%d-%d\n" % (i, k)).hex() for k in range(r.range(1, 4))) if r.chance(1, 3) else "-"
+            hosts.append(("h%d" % i, "o", out, err, 0))
         elif b == "H":
             hosts.append(("h%d" % i, "o", "H", "-", 0))
         else:
@@ -57,6 +59,18 @@ def judge_c03(run, n, f):
     last = max([st for st, k, f_ in run.events if k in ("DESTROY", "FPUTS")] + [0])
     if run.exit_step < last:
         return "pdsh exited before the last command finished / its output was delivered"
+    # "... and its output has been delivered": every line a healthy host wrote (either stream) was written out under its name
+    delivered = b"".join(b for st, w, sname, b in run.outs)
+    for h in run.hosts:
+        if h[1] != "o":
+            continue
+        for items in (h[2], h[3]):
+            if items in ("-", None) or "H" in items.split("/"):
+                continue
+            data = b"".join(bytes.fromhex(x[1:]) for x in items.split("/") if x.startswith("A"))
+            for line in data.split(b"\n"):
+                if line and (h[0].encode() + b": " + line) not in delivered:
+                    return "output of %s was not delivered before pdsh returned: %r missing" % (h[0], line)
     return None
 
 
@@ -191,7 +205,30 @@ def interrupted_runs(ctx, eng, r, quick):
                           detail=e + " (interrupts %s, not aborting); trace tail: " % sigs + " | ".join(ru.lines[-12:]))
             if nbad >= 3:
                 break
-    return nrun, nbad
+    # a resource fault in the middle of the run: the creation of the k-th worker thread fails.  Whatever pdsh does about it
+    # (the unchanged code gives up with a message), it must not be left waiting for a completion that can never come
+    nrun2 = 60 if quick else 1500
+    for k in range(nrun2):
+        if nbad >= 3:
+            break
+        n = r.range(2, 6)
+        f = r.range(1, n)
+        hosts = [("h%d" % i, "o", "A" + (b"o%d\n" % i).hex(), "-", 0) for i in range(n)]
+        args = ["-R", "sim", "-f", str(f), "-w", "h[0-%d]" % (n - 1), "cmd"]
+        ru = eng.run(args, hosts, seed=r.next() % (1 << 31), spur=r.choice([0, 1]), ptick=0,
+                     env={"SCHED_MAXSTEP": "30000", "SCHED_PCFAIL": str(r.range(1, n))}, timeout=10)
+        e = None
+        if ru.deadlock:
+            e = "deadlock: no thread can move and pdsh has not exited"
+        elif ru.exit is None:
+            e = "pdsh did not exit (code %s) %s" % (ru.code, ru.errtxt[-200:])
+        if e:
+            nbad += 1
+            rec = {"n": n, "f": f, "args": ru.args, "hosts": ru.hosts, "seed": ru.seed, "spur": ru.spur, "env": {"SCHED_PCFAIL": "?"},
+                   "schedule": [c for c in ru.choices if c != "sig"]}
+            ctx.violation("schedule", case=rec, expected="pdsh ends", observed=ru.summary(), engine="sched",
+                          detail=e + " (a worker thread could not be created); trace tail: " + " | ".join(ru.lines[-12:]))
+    return nrun + nrun2, nbad
 
 
 def detect_recheck():
